@@ -55,3 +55,23 @@ if which == "c12":
         print(f"//@   ensures[allowed-is-transparent] {allowed} ==>")
         print(f"//@             calls == [old(r.r).{name}({args})] && {same}")
         print()
+
+if which == "c13":
+    T="subRegistry"
+    M2 = M + []
+    for name,args,nres,checks,zero in M2:
+        repos=[a for a,_ in checks]
+        alist=[a.strip() for a in args.split(",")]
+        mapped=[]
+        for a in alist:
+            if a=="ctx": mapped.append("calls[0].result")
+            elif a in repos: mapped.append(f"r.repo({a})")
+            else: mapped.append(a)
+        if nres==2:
+            same="result.0 == calls[1].result.0 && result.1 == calls[1].result.1"
+        else:
+            same="result == calls[1].result"
+        print(f"//@ func (*{T}).{name}")
+        print(f"//@   ensures[acts-on-prefixed-name-only] calls == [r.mapScopes(ctx), old(r.r).{name}({', '.join(mapped)})] &&")
+        print(f"//@             {same}")
+        print()
